@@ -46,7 +46,8 @@ def _case(draw):
     case["shift"] = [draw(st.integers(-case["nx"], case["nx"])), draw(st.integers(-case["ny"], case["ny"]))]
     case["bg"] = draw(st.sampled_from([0.0, 1.0]))
     case["halo"] = draw(gen.halo(case, kinds=("none", "cells", "frac")))
-    case["tower2"] = draw(gen.tower(case))
+    # the second tower may sit a few cells OUTSIDE the source domain (a tower next to the mapped area), inside the halo
+    case["tower2"] = [draw(st.integers(-2, case["nx"] + 1)), draw(st.integers(-2, case["ny"] + 1))]
     return case
 
 
@@ -128,7 +129,13 @@ def check_case(case):
         kwh = dict(kw, halo=hv)
         ia, ja = case["tower"]
         ib, jb = case["tower2"]
+        pxh, pyh, _ = gen.pad_widths(case, hv)
+        # keep the second tower inside the padded periodic domain (the halo is what makes room for it)
+        ib = min(max(ib, -pxh), nx - 1 + pxh)
+        jb = min(max(jb, -pyh), ny - 1 + pyh)
         tx, ty = ib - ia, jb - ja
+        if not (0 <= ib < nx and 0 <= jb < ny):
+            out.label("tower2-outside-domain")
         _, ca, fa = sut.S(q0, z, prof, dom, lv, meas_pt=(ia * dx, ja * dy), footprint=True, **kwh)
         _, cb, fb = sut.S(q0, z, prof, dom, lv, meas_pt=(ib * dx, jb * dy), footprint=True, **kwh)
         ca, fa, cb, fb = (sut.as3d(a) for a in (ca, fa, cb, fb))
@@ -142,6 +149,8 @@ def check_case(case):
                 return a_[:, ya, xa], b_[:, yb, xb]
 
             for name, a_, b_ in (("conc", ca, cb), ("flux", fa, fb)):
+                if abs(tx) >= nx or abs(ty) >= ny:
+                    break  # the two windows do not overlap
                 A, B = ov(a_, b_)
                 scale = max(tol.maxabs(a_), tol.maxabs(b_))
                 if A.size and not tol.maxabs(A - B) <= rel * scale:
